@@ -74,6 +74,7 @@ def run(ctx):
     from . import factorization as fz
     fz.resumed_at_own_dimension(ctx, BASE)
     fz.subdiagonal_on_breakdown(ctx)
+    fz.residual_checked_against_basis(ctx)
     eigsbase.flag_freshness(ctx, BASE)
     eigsbase.ritz_data_of_current_call(ctx, BASE)
     eigsbase.coherent_permutation(ctx, BASE)
